@@ -29,8 +29,16 @@
        acknowledged (do_write_ack), and the invariant needs no proviso (run_Inv_mem).  The
        theorems with an `s_f2 ... = false` hypothesis (step_BlobsOk, run_Inv, ...) are kept as the
        stepping stones; Theorems.v discharges the hypothesis with never_f2.
-     * do_open on id-ordered files keeps the blobs, their ids and their records in the same order
-       (do_open_order). *)
+     * do_open on id-ordered files keeps the READABLE blobs, their ids and their records in the same order
+       (do_open_order, do_open_recs); with no readable file it creates a fresh blob or none (do_open_nogood).
+
+   Crash damage and quarantine (OCut, s_bad, s_quar): IdsOk now also carries QuarOk (Inv.v): the ids of the files of
+   the corrupted directory are below the next id of a running storage and are ids of no blob, a running storage has no
+   unreadable file, s_corrupted = length s_quar.  The quarantine fields are touched by `open` and by OCut only
+   (qf_step); a boundary cut keeps blob_ok because it never goes below the size an index file records (cut_recs_ok,
+   cut_applies).  `open` drops the records of the unreadable files: nondata_abs_gen (abs after the step =
+   readable_log for OOpen, abs otherwise); nondata_abs is the case s_bad s = [].  is_data_op counts OCut with the two
+   data operations (it changes the log). *)
 Require Import Pearl.Base.Prelude Pearl.Storage.Model Pearl.Storage.Spec Pearl.Storage.Inv.
 
 (* ---------- generic list facts ---------- *)
@@ -168,7 +176,45 @@ Proof.
   destruct Hb as [<-|Hb]; [lia|]. specialize (Hl _ Hb). lia.
 Qed.
 
+Lemma max_ids_fold l : forall a, exists m,
+  fold_left (fun a i => match a with Some m => Some (N.max m i) | None => Some i end) l (Some a) = Some m
+  /\ a <= m /\ forall i, In i l -> i <= m.
+Proof.
+  induction l as [|x l IH]; intros a; cbn [fold_left].
+  - exists a. split; [reflexivity|]. split; [lia|]. intros i [].
+  - destruct (IH (N.max a x)) as (m & E & Ha & Hl). exists m. split; [exact E|]. split; [lia|].
+    intros i [<-|Hi]; [lia|apply Hl, Hi].
+Qed.
+
+Lemma next_above_bound l i : In i l -> i < next_above l.
+Proof.
+  destruct l as [|x l]; intros Hi; [destruct Hi|]. unfold next_above, max_ids. cbn [fold_left].
+  destruct (max_ids_fold l x) as (m & E & Ha & Hl). rewrite E.
+  destruct Hi as [<-|Hi]; [lia|]. specialize (Hl _ Hi). lia.
+Qed.
+
 (* ---------- increasing ---------- *)
+Lemma increasing_head_lt x l : increasing (x :: l) -> forall y, In y l -> x < y.
+Proof.
+  revert x. induction l as [|z l IH]; intros x H y Hy; [destruct Hy|].
+  cbn [increasing] in H. destruct H as [Hxz Hr]. destruct Hy as [<-|Hy]; [exact Hxz|].
+  specialize (IH z Hr y Hy). lia.
+Qed.
+
+Lemma increasing_cons x l : increasing l -> (forall y, In y l -> x < y) -> increasing (x :: l).
+Proof.
+  intros Hi Hx. cbn [increasing]. split; [|exact Hi]. destruct l as [|y l]; [exact I|]. apply Hx. left. reflexivity.
+Qed.
+
+Lemma increasing_filter (p : blob -> bool) l : increasing (map b_id l) -> increasing (map b_id (filter p l)).
+Proof.
+  induction l as [|x l IH]; intros H; [exact I|]. cbn [map] in H. cbn [filter].
+  pose proof (increasing_head_lt _ _ H) as Hlt. destruct H as [_ Hr]. specialize (IH Hr).
+  destruct (p x); [|exact IH]. cbn [map]. apply increasing_cons; [exact IH|].
+  intros y Hy. apply Hlt. apply in_map_iff in Hy. destruct Hy as (b & <- & Hb). apply in_map.
+  apply filter_In in Hb. apply Hb.
+Qed.
+
 Lemma increasing_app_l l1 l2 : increasing (l1 ++ l2) -> increasing l1.
 Proof.
   induction l1 as [|x l1 IH]; intros H; [exact I|]. cbn [app increasing] in H. destruct H as [Hx Hr].
@@ -432,31 +478,35 @@ Qed.
 Lemma BlobsOk_closed_blobs s b : BlobsOk K s -> In b (closed_blobs s) -> blob_ok K b.
 Proof. intros H Hb. rewrite closed_blobs_cb in Hb. apply in_cb in Hb. apply (proj1 H), Hb. Qed.
 
-Lemma do_open_nonempty files c lazy f2 : files <> [] ->
-  do_open K files c lazy f2 =
-    let blobs := sort_by_id (map (blob_from_file K) files) in
-    let next := match max_id blobs with Some m => m + 1 | None => 0 end in
-    let '(active, rest) :=
-      if lazy then (None, blobs)
+Definition good_files (bad : list N) (files : list blob) : list blob := filter (fun b => negb (is_bad bad b)) files.
+Definition new_quar (bad : list N) (files : list blob) : list N := map b_id (filter (is_bad bad) files).
+
+Lemma do_open_nonempty files bad quar c lazy f2 : files <> [] ->
+  do_open K files bad quar c lazy f2 =
+    let blobs := sort_by_id (map (blob_from_file K) (good_files bad files)) in
+    let next := next_above (map b_id files ++ quar) in
+    let '(active, rest, next') :=
+      if lazy then (None, blobs, next)
       else match rev blobs with
-           | last :: r => (Some (blob_load_index K last), rev r)
-           | [] => (None, [])
+           | last :: r => (Some (blob_load_index K last), rev r, next)
+           | [] => (Some (new_blob next), [], next + 1)
            end in
-    {| s_active := active; s_closed := map (fun b => Some (blob_dump K b)) rest; s_next := next;
-       s_corrupted := c; s_alive := true; s_dump_req := false; s_aged := false; s_open := true; s_f2 := f2 |}.
+    {| s_active := active; s_closed := map (fun b => Some (blob_dump K b)) rest; s_next := next';
+       s_corrupted := c + N.of_nat (length (new_quar bad files)); s_alive := true; s_dump_req := false; s_aged := false;
+       s_open := true; s_f2 := f2; s_bad := []; s_quar := quar ++ new_quar bad files |}.
 Proof. destruct files; [contradiction|reflexivity]. Qed.
 
-Lemma BlobsOk_do_open files c lazy f2 :
-  (forall b, In b files -> blob_ok K b) -> BlobsOk K (do_open K files c lazy f2).
+Lemma BlobsOk_do_open files bad quar c lazy f2 :
+  (forall b, In b files -> blob_ok K b) -> BlobsOk K (do_open K files bad quar c lazy f2).
 Proof.
   intros H. destruct files as [|f0 fs] eqn:EF.
   - cbn [do_open]. split; cbn [s_closed s_active]; [intros b []|].
     intros b Hb. injection Hb as <-. apply blob_ok_new.
   - rewrite <- EF in *. rewrite do_open_nonempty by (rewrite EF; discriminate).
-    set (blobs := sort_by_id (map (blob_from_file K) files)).
+    set (blobs := sort_by_id (map (blob_from_file K) (good_files bad files))).
     assert (HB : forall b, In b blobs -> blob_ok K b).
     { intros b Hb. unfold blobs in Hb. apply (proj1 (in_sort_by_id _ _)) in Hb. apply in_map_iff in Hb. destruct Hb as (x & <- & Hx).
-      apply blob_from_file_ok, H, Hx. }
+      apply blob_from_file_ok, H. unfold good_files in Hx. apply filter_In in Hx. apply Hx. }
     clearbody blobs. cbv zeta.
     assert (HD : forall rest, (forall b, In b rest -> blob_ok K b) ->
                  forall b, In (Some b) (map (fun b => Some (blob_dump K b)) rest) -> blob_ok K b).
@@ -465,11 +515,109 @@ Proof.
     destruct lazy.
     + split; cbn [s_closed s_active]; [apply HD, HB|discriminate].
     + destruct (rev blobs) as [|last r] eqn:R.
-      * split; cbn [s_closed s_active map]; [intros b []|discriminate].
+      * split; cbn [s_closed s_active map]; [intros b []|]. intros b Hb. injection Hb as <-. apply blob_ok_new.
       * apply rev_cons_inv in R. subst blobs.
         split; cbn [s_closed s_active].
         -- apply HD. intros b Hb. apply HB. apply in_or_app. left. exact Hb.
         -- intros b Hb. injection Hb as <-. apply blob_load_index_ok, HB. apply in_or_app. right. left. reflexivity.
+Qed.
+
+(* ---------- a blob file cut at a record boundary above what its index file describes ---------- *)
+Lemma size_of_firstn_mono n j l : (n <= length l)%nat -> (j <= length l)%nat ->
+  size_of K (firstn n l) <= size_of K (firstn j l) -> (n <= j)%nat.
+Proof.
+  intros Hn Hj Hs. destruct (Nat.le_gt_cases n j) as [Hle|Hgt]; [exact Hle|exfalso].
+  assert (E : firstn n l = firstn j l ++ skipn j (firstn n l)).
+  { rewrite <- (firstn_skipn j (firstn n l)) at 1. rewrite firstn_firstn. replace (Init.Nat.min j n) with j by lia. reflexivity. }
+  rewrite E in Hs. unfold size_of in Hs. rewrite fold_left_app in Hs.
+  assert (Hne : skipn j (firstn n l) <> []).
+  { intros E0. apply (f_equal (@length rec)) in E0. rewrite skipn_length, firstn_length in E0. cbn [length] in E0. lia. }
+  pose proof (fold_size_gt _ Hne (fold_left (fun a r => a + rec_size K r) (firstn j l) BLOB_HEADER_SIZE)). lia.
+Qed.
+
+Lemma cut_recs_ok j b : blob_ok K b -> cut_applies K j b = true -> blob_ok K (cut_recs j b).
+Proof.
+  intros [Hi Hf] Ha. split; [reflexivity|].
+  unfold idxfile_ok in *. unfold cut_applies in Ha. cbn [cut_recs b_idxfile b_recs].
+  destruct (b_idxfile b) as [[sz m]|]; [|exact I].
+  destruct Hf as (n & Hn & Hs & Hm). apply N.leb_le in Ha.
+  destruct (Nat.le_gt_cases (length (b_recs b)) j) as [Hj|Hj].
+  - rewrite firstn_all2 by exact Hj. exists n. auto.
+  - assert (Hnj : (n <= j)%nat).
+    { apply (size_of_firstn_mono n j (b_recs b)); [exact Hn|lia|]. rewrite <- Hs. exact Ha. }
+    exists n. rewrite firstn_length, firstn_firstn. replace (Init.Nat.min n j) with n by lia.
+    split; [lia|]. split; assumption.
+Qed.
+
+Lemma cut_blob_ok id j b : blob_ok K b -> blob_ok K (cut_blob K id j b).
+Proof.
+  intros H. unfold cut_blob. destruct (b_id b =? id); cbn [andb]; [|exact H].
+  destruct (cut_applies K j b) eqn:Ha; [apply cut_recs_ok; assumption|exact H].
+Qed.
+
+Lemma cut_blob_id id j b : b_id (cut_blob K id j b) = b_id b.
+Proof. unfold cut_blob. destruct ((b_id b =? id) && cut_applies K j b); reflexivity. Qed.
+
+Lemma closed_do_cut s id keep :
+  s_closed (do_cut K s id keep) =
+  match keep with
+  | Some j => if s_open s then s_closed s
+              else map (fun o => match o with Some b => Some (cut_blob K id j b) | None => None end) (s_closed s)
+  | None => s_closed s
+  end.
+Proof.
+  unfold do_cut. destruct (s_open s); [destruct keep; reflexivity|]. destruct keep as [j|]; [reflexivity|].
+  destruct (existsb (fun b => b_id b =? id) (closed_blobs s)); reflexivity.
+Qed.
+
+Lemma active_do_cut s id keep : s_active (do_cut K s id keep) = s_active s.
+Proof.
+  unfold do_cut. destruct (s_open s); [reflexivity|]. destruct keep as [j|]; [reflexivity|].
+  destruct (existsb (fun b => b_id b =? id) (closed_blobs s)); reflexivity.
+Qed.
+
+Lemma next_do_cut s id keep : s_next (do_cut K s id keep) = s_next s.
+Proof.
+  unfold do_cut. destruct (s_open s); [reflexivity|]. destruct keep as [j|]; [reflexivity|].
+  destruct (existsb (fun b => b_id b =? id) (closed_blobs s)); reflexivity.
+Qed.
+
+Lemma open_do_cut s id keep : s_open (do_cut K s id keep) = s_open s.
+Proof.
+  unfold do_cut. destruct (s_open s) eqn:EO; [exact EO|]. destruct keep as [j|]; [exact EO|].
+  destruct (existsb (fun b => b_id b =? id) (closed_blobs s)); exact EO.
+Qed.
+
+Lemma f2_do_cut s id keep : s_f2 (do_cut K s id keep) = s_f2 s.
+Proof.
+  unfold do_cut. destruct (s_open s); [reflexivity|]. destruct keep as [j|]; [reflexivity|].
+  destruct (existsb (fun b => b_id b =? id) (closed_blobs s)); reflexivity.
+Qed.
+
+Lemma quar_do_cut s id keep : s_quar (do_cut K s id keep) = s_quar s /\ s_corrupted (do_cut K s id keep) = s_corrupted s.
+Proof.
+  unfold do_cut. destruct (s_open s); [auto|]. destruct keep as [j|]; [auto|].
+  destruct (existsb (fun b => b_id b =? id) (closed_blobs s)); auto.
+Qed.
+
+Lemma f2_do_open files bad quar c lazy f2 : s_f2 (do_open K files bad quar c lazy f2) = f2.
+Proof.
+  unfold do_open. destruct files as [|f0 fs]; [reflexivity|]. destruct lazy; [reflexivity|].
+  destruct (rev (sort_by_id (map (blob_from_file K) (filter (fun b => negb (is_bad bad b)) (f0 :: fs))))); reflexivity.
+Qed.
+
+Lemma open_do_open files bad quar c lazy f2 : s_open (do_open K files bad quar c lazy f2) = true.
+Proof.
+  unfold do_open. destruct files as [|f0 fs]; [reflexivity|]. destruct lazy; [reflexivity|].
+  destruct (rev (sort_by_id (map (blob_from_file K) (filter (fun b => negb (is_bad bad b)) (f0 :: fs))))); reflexivity.
+Qed.
+
+Lemma BlobsOk_do_cut s id keep : BlobsOk K s -> BlobsOk K (do_cut K s id keep).
+Proof.
+  intros H. split; [|rewrite active_do_cut; apply H].
+  rewrite closed_do_cut. destruct keep as [j|]; [|apply H]. destruct (s_open s); [apply H|].
+  intros b Hb. apply in_map_iff in Hb. destruct Hb as ([x|] & Hx & Hin); [|discriminate].
+  injection Hx as <-. apply cut_blob_ok, (proj1 H), Hin.
 Qed.
 
 Lemma delete_in_closed_spec l mk : forall l' n f,
@@ -569,6 +717,7 @@ Proof.
   - intros _. cbn [fst]. apply BlobsOk_upd_closed; [exact H|].
     intros b Hb. apply in_map_iff in Hb. destruct Hb as ([x|] & Hx & Hin); [|discriminate].
     injection Hx as <-. destruct (b_id x =? id); [apply rm_index_ok|]; apply (proj1 H), Hin.
+  - intros _. cbn [fst]. apply BlobsOk_do_cut, H.
 Qed.
 
 (* ---------- the ghost flag ---------- *)
@@ -660,9 +809,8 @@ Proof.
   - cbn [fst]. rewrite f2_request_dump. exact H.
   - cbn [fst]. rewrite f2_quiesce. exact H.
   - destruct (s_open s); cbn [fst]; [exact H|].
-    unfold do_open. destruct (closed_blobs s) as [|f0 fs]; [exact H|].
-    destruct lazy; [exact H|].
-    destruct (rev (sort_by_id (map (blob_from_file K) (f0 :: fs)))); exact H.
+    rewrite f2_do_open. exact H.
+  - cbn [fst]. rewrite f2_do_cut. exact H.
 Qed.
 
 Lemma f2_monotone_step_q s o : s_f2 s = true -> s_f2 (fst (step_q K cfg s o)) = true.
@@ -699,46 +847,81 @@ Lemma ids_eq s :
   ids s = map b_id (cb (s_closed s)) ++ match s_active s with Some b => [b_id b] | None => [] end.
 Proof. unfold ids, blobs_in_order. rewrite map_app, closed_blobs_cb. destruct (s_active s); reflexivity. Qed.
 
-(* the form used for open storages: the bound on ids holds unconditionally *)
-Definition IdsOkS (s : storage) : Prop := increasing (ids s) /\ forall i, In i (ids s) -> i < s_next s.
+(* the quarantine fields, which no operation of a session touches *)
+Definition qf (s : storage) : list N * list N * N := (s_quar s, s_bad s, s_corrupted s).
+
+(* the form used for open storages: the bounds hold unconditionally *)
+Definition QuarS (s : storage) : Prop :=
+  (forall q, In q (s_quar s) -> q < s_next s) /\ (forall i, In i (ids s) -> ~ In i (s_quar s)) /\
+  s_bad s = [] /\ s_corrupted s = N.of_nat (length (s_quar s)).
+
+Definition IdsOkS (s : storage) : Prop :=
+  increasing (ids s) /\ (forall i, In i (ids s) -> i < s_next s) /\ QuarS s.
 
 Lemma IdsOk_iff s :
-  IdsOk s <-> increasing (ids s) /\ (s_open s = true -> forall i, In i (ids s) -> i < s_next s).
+  IdsOk s <-> increasing (ids s) /\ (s_open s = true -> forall i, In i (ids s) -> i < s_next s) /\
+              (s_open s = true -> forall q, In q (s_quar s) -> q < s_next s) /\
+              (forall i, In i (ids s) -> ~ In i (s_quar s)) /\
+              (s_open s = true -> s_bad s = []) /\ s_corrupted s = N.of_nat (length (s_quar s)).
 Proof.
-  unfold IdsOk, ids. split; intros [H1 H2]; (split; [exact H1|]); intros Ho.
-  - intros i Hi. apply in_map_iff in Hi. destruct Hi as (b & <- & Hb). apply H2; assumption.
-  - intros b Hb. apply H2; [exact Ho|]. apply in_map. exact Hb.
+  unfold IdsOk, QuarOk, ids. split; intros (H1 & H2 & H3 & H4 & H5 & H6);
+    (split; [exact H1|]); (split; [|split; [exact H3|split; [|split; [exact H5|exact H6]]]]).
+  - intros Ho i Hi. apply in_map_iff in Hi. destruct Hi as (b & <- & Hb). apply H2; assumption.
+  - intros i Hi. apply in_map_iff in Hi. destruct Hi as (b & <- & Hb). apply H4, Hb.
+  - intros Ho b Hb. apply H2; [exact Ho|]. apply in_map. exact Hb.
+  - intros b Hb. apply H4. apply in_map. exact Hb.
 Qed.
 
 Lemma IdsOkS_IdsOk s : IdsOkS s -> IdsOk s.
-Proof. intros [H1 H2]. apply IdsOk_iff. split; [exact H1|]. intros _. exact H2. Qed.
+Proof.
+  intros (H1 & H2 & H3 & H4 & H5 & H6). apply IdsOk_iff. split; [exact H1|]. split; [intros _; exact H2|].
+  split; [intros _; exact H3|]. split; [exact H4|]. split; [intros _; exact H5|exact H6].
+Qed.
 
 Lemma IdsOk_IdsOkS s : IdsOk s -> s_open s = true -> IdsOkS s.
-Proof. intros H Ho. apply IdsOk_iff in H. destruct H as [H1 H2]. split; [exact H1|apply H2, Ho]. Qed.
+Proof.
+  intros H Ho. apply IdsOk_iff in H. destruct H as (H1 & H2 & H3 & H4 & H5 & H6).
+  split; [exact H1|]. split; [apply H2, Ho|]. split; [apply H3, Ho|]. split; [exact H4|]. split; [apply H5, Ho|exact H6].
+Qed.
+
+Lemma qf_inv s s' : qf s' = qf s -> s_quar s' = s_quar s /\ s_bad s' = s_bad s /\ s_corrupted s' = s_corrupted s.
+Proof. unfold qf. intros E. injection E as E1 E2 E3. auto. Qed.
 
 Lemma IdsOk_same s s' :
-  ids s' = ids s -> s_next s' = s_next s -> s_open s' = s_open s -> IdsOk s -> IdsOk s'.
-Proof. intros Hi Hn Ho H. apply IdsOk_iff in H. apply IdsOk_iff. rewrite Hi, Hn, Ho. exact H. Qed.
+  ids s' = ids s -> s_next s' = s_next s -> s_open s' = s_open s -> qf s' = qf s -> IdsOk s -> IdsOk s'.
+Proof.
+  intros Hi Hn Ho Hq H. apply qf_inv in Hq. destruct Hq as (Hq1 & Hq2 & Hq3).
+  apply IdsOk_iff in H. apply IdsOk_iff. rewrite Hi, Hn, Ho, Hq1, Hq2, Hq3. exact H.
+Qed.
 
-Lemma IdsOkS_same s s' : ids s' = ids s -> s_next s' = s_next s -> IdsOkS s -> IdsOkS s'.
-Proof. unfold IdsOkS. intros -> ->. auto. Qed.
+Lemma IdsOkS_same s s' : ids s' = ids s -> s_next s' = s_next s -> qf s' = qf s -> IdsOkS s -> IdsOkS s'.
+Proof.
+  unfold IdsOkS, QuarS. intros Hi Hn Hq. apply qf_inv in Hq. destruct Hq as (Hq1 & Hq2 & Hq3).
+  rewrite Hi, Hn, Hq1, Hq2, Hq3. auto.
+Qed.
 
 Lemma IdsOkS_ext s s' :
-  s_closed s' = s_closed s -> s_active s' = s_active s -> s_next s' = s_next s -> IdsOkS s -> IdsOkS s'.
-Proof. intros Hc Ha Hn. apply IdsOkS_same; [|exact Hn]. rewrite !ids_eq, Hc, Ha. reflexivity. Qed.
+  s_closed s' = s_closed s -> s_active s' = s_active s -> s_next s' = s_next s -> qf s' = qf s -> IdsOkS s -> IdsOkS s'.
+Proof. intros Hc Ha Hn Hq. apply IdsOkS_same; [|exact Hn|exact Hq]. rewrite !ids_eq, Hc, Ha. reflexivity. Qed.
 
 Lemma IdsOkS_grow s s' :
-  ids s' = ids s ++ [s_next s] -> s_next s' = s_next s + 1 -> IdsOkS s -> IdsOkS s'.
+  ids s' = ids s ++ [s_next s] -> s_next s' = s_next s + 1 -> qf s' = qf s -> IdsOkS s -> IdsOkS s'.
 Proof.
-  unfold IdsOkS. intros -> -> [H1 H2]. split.
+  unfold IdsOkS, QuarS. intros Hi Hn Hq. apply qf_inv in Hq. destruct Hq as (Hq1 & Hq2 & Hq3).
+  rewrite Hi, Hn, Hq1, Hq2, Hq3. intros (H1 & H2 & H3 & H4 & H5 & H6). split; [|split; [|split; [|split; [|split]]]].
   - apply increasing_snoc; assumption.
-  - intros i Hi. apply in_app_or in Hi. destruct Hi as [Hi|[<-|[]]]; [specialize (H2 i Hi)|]; lia.
+  - intros i Hin. apply in_app_or in Hin. destruct Hin as [Hin|[<-|[]]]; [specialize (H2 i Hin)|]; lia.
+  - intros q Hq. specialize (H3 q Hq). lia.
+  - intros i Hin Hq. apply in_app_or in Hin. destruct Hin as [Hin|[<-|[]]]; [exact (H4 i Hin Hq)|].
+    specialize (H3 _ Hq). lia.
+  - exact H5.
+  - exact H6.
 Qed.
 
 Lemma IdsOkS_ensure_active s : IdsOkS s -> IdsOkS (ensure_active s).
 Proof.
   unfold ensure_active. destruct (s_active s) as [a|] eqn:E; [auto|].
-  apply IdsOkS_grow; [|reflexivity]. rewrite !ids_eq, E. cbn [s_closed s_active new_blob b_id].
+  apply IdsOkS_grow; [|reflexivity|reflexivity]. rewrite !ids_eq, E. cbn [s_closed s_active new_blob b_id].
   rewrite app_nil_r. reflexivity.
 Qed.
 
@@ -755,7 +938,7 @@ Qed.
 Lemma IdsOkS_close_active s : IdsOkS s -> IdsOkS (fst (close_active s)).
 Proof.
   unfold close_active. destruct (s_active s) as [a|] eqn:E; cbn [fst]; [|auto].
-  apply IdsOkS_same; [apply ids_push_closed, E|reflexivity].
+  apply IdsOkS_same; [apply ids_push_closed, E|reflexivity|reflexivity].
 Qed.
 
 Lemma IdsOkS_create_active s : IdsOkS s -> IdsOkS (fst (create_active s)).
@@ -767,7 +950,7 @@ Lemma IdsOkS_restore_active s : IdsOkS s -> IdsOkS (fst (restore_active K s)).
 Proof.
   unfold restore_active. destruct (s_active s) as [a|] eqn:E; cbn [fst]; [auto|].
   destruct (pop_last (s_closed s)) as [[b c]|] eqn:P; cbn [fst]; [|auto].
-  apply IdsOkS_same; [|reflexivity]. rewrite !ids_eq, E. cbn [upd_closed upd_active s_closed s_active].
+  apply IdsOkS_same; [|reflexivity|reflexivity]. rewrite !ids_eq, E. cbn [upd_closed upd_active s_closed s_active].
   rewrite (pop_last_cb _ _ _ P), map_app, app_nil_r. cbn [map]. rewrite blob_load_index_id. reflexivity.
 Qed.
 
@@ -781,7 +964,7 @@ Qed.
 
 Lemma IdsOkS_replace_active s : IdsOkS s -> IdsOkS (replace_active s).
 Proof.
-  apply IdsOkS_grow; [|reflexivity]. unfold replace_active. rewrite !ids_eq.
+  apply IdsOkS_grow; [|reflexivity|reflexivity]. unfold replace_active. rewrite !ids_eq.
   cbn [s_closed s_active new_blob b_id]. destruct (s_active s) as [a|].
   - cbn [push_closed upd_closed s_closed]. rewrite cb_app, map_app. reflexivity.
   - rewrite app_nil_r. reflexivity.
@@ -797,7 +980,7 @@ Qed.
 Lemma IdsOkS_upd_active s a b' :
   s_active s = Some a -> b_id b' = b_id a -> IdsOkS s -> IdsOkS (upd_active s (Some b')).
 Proof.
-  intros E Hi. apply IdsOkS_same; [|reflexivity]. rewrite !ids_eq, E.
+  intros E Hi. apply IdsOkS_same; [|reflexivity|reflexivity]. rewrite !ids_eq, E.
   cbn [upd_active s_closed s_active]. rewrite Hi. reflexivity.
 Qed.
 
@@ -819,7 +1002,7 @@ Qed.
 Lemma IdsOkS_upd_closed s c :
   map b_id (cb c) = map b_id (cb (s_closed s)) -> IdsOkS s -> IdsOkS (upd_closed s c).
 Proof.
-  intros Hc. apply IdsOkS_same; [|reflexivity]. rewrite !ids_eq. cbn [upd_closed s_closed s_active].
+  intros Hc. apply IdsOkS_same; [|reflexivity|reflexivity]. rewrite !ids_eq. cbn [upd_closed s_closed s_active].
   rewrite Hc. reflexivity.
 Qed.
 
@@ -862,7 +1045,7 @@ Qed.
 
 Theorem quiesce_IdsOk : forall s, IdsOk s -> IdsOk (quiesce K s).
 Proof.
-  intros s. apply IdsOk_same; [apply ids_quiesce| |];
+  intros s. apply IdsOk_same; [apply ids_quiesce| | |];
     unfold quiesce; destruct (s_alive s && s_dump_req s); reflexivity.
 Qed.
 
@@ -872,47 +1055,137 @@ Proof. rewrite ids_eq. cbn [closed_state s_closed s_active]. rewrite cb_map_Some
 Lemma increasing_closed s : increasing (ids s) -> increasing (map b_id (closed_blobs s)).
 Proof. rewrite ids_eq, closed_blobs_cb. apply increasing_app_l. Qed.
 
-(* what `open` makes of an id-ordered directory: the same blobs, in the same order *)
-Lemma do_open_order files c lazy f2 : increasing (map b_id files) -> files <> [] ->
-  map b_id (blobs_in_order (do_open K files c lazy f2)) = map b_id files /\
-  flat_map b_recs (blobs_in_order (do_open K files c lazy f2)) = flat_map b_recs files /\
-  s_next (do_open K files c lazy f2) =
-    match max_id (map (blob_from_file K) files) with Some m => m + 1 | None => 0 end.
+(* what `open` makes of an id-ordered directory: the readable blobs, in the same order *)
+Lemma in_good_files bad files b : In b (good_files bad files) <-> In b files /\ ~ In (b_id b) bad.
 Proof.
-  intros Hinc Hne. rewrite do_open_nonempty by exact Hne.
-  rewrite sort_by_id_increasing by (rewrite (map_id_ext _ _ blob_from_file_id); exact Hinc).
-  rewrite <- (map_id_ext _ files blob_from_file_id).
-  rewrite <- (flat_map_recs_ext _ files blob_from_file_recs).
-  set (blobs := map (blob_from_file K) files). clearbody blobs. cbv zeta.
+  unfold good_files, is_bad. rewrite filter_In. split; intros [H1 H2]; (split; [exact H1|]).
+  - intros Hb. apply negb_true_iff in H2. rewrite <- not_true_iff_false in H2. apply H2.
+    apply existsb_exists. exists (b_id b). split; [exact Hb|apply N.eqb_refl].
+  - apply negb_true_iff, not_true_iff_false. intros E. apply existsb_exists in E. destruct E as (x & Hx & E).
+    apply N.eqb_eq in E. subst x. exact (H2 Hx).
+Qed.
+
+Lemma in_new_quar bad files q : In q (new_quar bad files) <-> exists b, In b files /\ b_id b = q /\ In q bad.
+Proof.
+  unfold new_quar, is_bad. rewrite in_map_iff. split.
+  - intros (b & <- & Hb). apply filter_In in Hb. destruct Hb as [Hb E]. exists b. split; [exact Hb|]. split; [reflexivity|].
+    apply existsb_exists in E. destruct E as (x & Hx & E). apply N.eqb_eq in E. subst x. exact Hx.
+  - intros (b & Hb & <- & Hq). exists b. split; [reflexivity|]. apply filter_In. split; [exact Hb|].
+    apply existsb_exists. exists (b_id b). split; [exact Hq|apply N.eqb_refl].
+Qed.
+
+Lemma do_open_order files bad quar c lazy f2 : increasing (map b_id files) -> good_files bad files <> [] ->
+  map b_id (blobs_in_order (do_open K files bad quar c lazy f2)) = map b_id (good_files bad files) /\
+  flat_map b_recs (blobs_in_order (do_open K files bad quar c lazy f2)) = flat_map b_recs (good_files bad files) /\
+  s_next (do_open K files bad quar c lazy f2) = next_above (map b_id files ++ quar).
+Proof.
+  intros Hinc Hne. assert (Hf : files <> []) by (intros ->; apply Hne; reflexivity).
+  rewrite do_open_nonempty by exact Hf.
+  pose proof (increasing_filter (fun b => negb (is_bad bad b)) files Hinc) as Hg. fold (good_files bad files) in Hg.
+  set (good := good_files bad files) in *.
+  rewrite sort_by_id_increasing by (rewrite (map_id_ext _ _ blob_from_file_id); exact Hg).
+  rewrite <- (map_id_ext _ good blob_from_file_id).
+  rewrite <- (flat_map_recs_ext _ good blob_from_file_recs).
+  assert (Hb : map (blob_from_file K) good <> []) by (destruct good; [contradiction|discriminate]).
+  set (blobs := map (blob_from_file K) good) in *. clearbody blobs. cbv zeta.
   unfold blobs_in_order. rewrite !closed_blobs_cb.
   destruct lazy.
   - cbn [s_closed s_active s_next]. rewrite cb_map_some_f, !app_nil_r.
     rewrite (map_id_ext _ _ blob_dump_id), (flat_map_recs_ext _ _ blob_dump_recs). auto.
   - destruct (rev blobs) as [|last r] eqn:R.
-    + cbn [s_closed s_active s_next map]. apply (f_equal (@rev blob)) in R. rewrite rev_involutive in R.
-      subst blobs. auto.
+    + exfalso. apply Hb. apply (f_equal (@rev blob)) in R. rewrite rev_involutive in R. exact R.
     + apply rev_cons_inv in R. cbn [s_closed s_active s_next]. rewrite cb_map_some_f. subst blobs.
       rewrite !map_app, !flat_map_app. cbn [map flat_map].
       rewrite (map_id_ext _ _ blob_dump_id), (flat_map_recs_ext _ _ blob_dump_recs).
       rewrite blob_load_index_id, blob_load_index_recs. auto.
 Qed.
 
-Lemma do_open_IdsOkS files c lazy f2 : increasing (map b_id files) -> IdsOkS (do_open K files c lazy f2).
+(* no readable file: a fresh active blob (init_new on an empty directory, eager init when every file was moved away),
+   or nothing at all (init_lazy) *)
+Definition fresh_on_open (files : list blob) (lazy : bool) : bool := match files with [] => true | _ => negb lazy end.
+
+Lemma do_open_nogood files bad quar c lazy f2 : good_files bad files = [] ->
+  blobs_in_order (do_open K files bad quar c lazy f2) =
+    (if fresh_on_open files lazy then [new_blob (next_above (map b_id files ++ quar))] else []) /\
+  s_next (do_open K files bad quar c lazy f2) =
+    (if fresh_on_open files lazy then next_above (map b_id files ++ quar) + 1 else next_above (map b_id files ++ quar)).
 Proof.
-  intros Hinc. destruct files as [|f0 fs] eqn:EF.
-  - cbn [do_open]. split.
-    + unfold ids, blobs_in_order. cbn. auto.
-    + unfold ids, blobs_in_order. cbn [closed_blobs s_closed s_active flat_map app map new_blob b_id s_next].
-      intros i [<-|[]]. lia.
-  - rewrite <- EF in *. assert (Hne : files <> []) by (rewrite EF; discriminate).
-    destruct (do_open_order files c lazy f2 Hinc Hne) as (Hi & _ & Hn).
-    unfold IdsOkS, ids. rewrite Hi, Hn. split; [exact Hinc|].
-    intros i Hin. apply in_map_iff in Hin. destruct Hin as (b & <- & Hb).
-    rewrite <- (blob_from_file_id b). apply max_id_bound. apply in_map. exact Hb.
+  intros Hg. destruct files as [|f0 fs] eqn:EF; [split; reflexivity|].
+  rewrite <- EF in *. rewrite do_open_nonempty by (rewrite EF; discriminate). rewrite Hg.
+  replace (fresh_on_open files lazy) with (negb lazy) by (rewrite EF; reflexivity).
+  destruct lazy; split; reflexivity.
+Qed.
+
+Lemma do_open_quar files bad quar c lazy f2 :
+  s_quar (do_open K files bad quar c lazy f2) = quar ++ new_quar bad files /\
+  s_corrupted (do_open K files bad quar c lazy f2) = c + N.of_nat (length (new_quar bad files)) /\
+  s_bad (do_open K files bad quar c lazy f2) = [].
+Proof.
+  destruct files as [|f0 fs] eqn:EF.
+  - cbn [do_open s_quar s_corrupted s_bad new_quar filter map length]. rewrite app_nil_r, N.add_0_r. auto.
+  - rewrite <- EF. rewrite do_open_nonempty by (rewrite EF; discriminate). cbv zeta.
+    destruct lazy; [auto|]. destruct (rev (sort_by_id (map (blob_from_file K) (good_files bad files)))); auto.
+Qed.
+
+Lemma do_open_next_ge files bad quar c lazy f2 :
+  next_above (map b_id files ++ quar) <= s_next (do_open K files bad quar c lazy f2).
+Proof.
+  destruct files as [|f0 fs] eqn:EF; [cbn [do_open s_next map app]; lia|].
+  rewrite <- EF. rewrite do_open_nonempty by (rewrite EF; discriminate). cbv zeta.
+  destruct lazy; [cbn [s_next]; lia|].
+  destruct (rev (sort_by_id (map (blob_from_file K) (good_files bad files)))); cbn [s_next]; lia.
+Qed.
+
+Lemma do_open_IdsOkS files bad quar c lazy f2 :
+  increasing (map b_id files) -> (forall b, In b files -> ~ In (b_id b) quar) -> c = N.of_nat (length quar) ->
+  IdsOkS (do_open K files bad quar c lazy f2).
+Proof.
+  intros Hinc Hnq Hc.
+  destruct (do_open_quar files bad quar c lazy f2) as (Eq & Ec & Eb).
+  pose proof (do_open_next_ge files bad quar c lazy f2) as Hge.
+  assert (Hsub : forall q, In q (quar ++ new_quar bad files) -> In q (map b_id files ++ quar)).
+  { intros q Hq. apply in_or_app. apply in_app_or in Hq. destruct Hq as [Hq|Hq]; [right; exact Hq|left].
+    apply in_new_quar in Hq. destruct Hq as (b & Hb & <- & _). apply in_map. exact Hb. }
+  assert (HQ1 : forall q, In q (quar ++ new_quar bad files) -> q < s_next (do_open K files bad quar c lazy f2)).
+  { intros q Hq. pose proof (next_above_bound _ _ (Hsub q Hq)). lia. }
+  assert (HC : c + N.of_nat (length (new_quar bad files)) = N.of_nat (length (quar ++ new_quar bad files))).
+  { rewrite app_length, Nat2N.inj_add, Hc. reflexivity. }
+  unfold IdsOkS, QuarS. rewrite Eq, Ec, Eb. unfold ids.
+  destruct (good_files bad files) as [|g0 gs] eqn:EG.
+  - destruct (do_open_nogood files bad quar c lazy f2 EG) as [Hb Hn]. rewrite Hb.
+    destruct (fresh_on_open files lazy); cbn [map new_blob b_id].
+    + split; [split; exact I|]. split; [intros i [<-|[]]; lia|]. split; [exact HQ1|]. split; [|auto].
+      intros i [<-|[]] Hq. pose proof (next_above_bound _ _ (Hsub _ Hq)). lia.
+    + split; [exact I|]. split; [intros i []|]. split; [exact HQ1|]. split; [intros i []|auto].
+  - assert (Hne : good_files bad files <> []) by (rewrite EG; discriminate).
+    destruct (do_open_order files bad quar c lazy f2 Hinc Hne) as (Hi & _ & Hn). rewrite Hi.
+    split; [apply (increasing_filter (fun b => negb (is_bad bad b)) files Hinc)|].
+    split; [|split; [exact HQ1|split; [|auto]]].
+    + intros i Hin. rewrite Hn. apply next_above_bound. apply in_or_app. left.
+      apply in_map_iff in Hin. destruct Hin as (b & <- & Hb). apply in_map. apply in_good_files in Hb. apply Hb.
+    + intros i Hin Hq. apply in_map_iff in Hin. destruct Hin as (b & <- & Hb). apply in_good_files in Hb.
+      destruct Hb as [Hb Hnb]. apply in_app_or in Hq. destruct Hq as [Hq|Hq]; [exact (Hnq b Hb Hq)|].
+      apply in_new_quar in Hq. destruct Hq as (b' & _ & _ & Hq). exact (Hnb Hq).
+Qed.
+
+Lemma ids_do_cut s id keep : ids (do_cut K s id keep) = ids s.
+Proof.
+  rewrite !ids_eq, active_do_cut, closed_do_cut. destruct keep as [j|]; [|reflexivity].
+  destruct (s_open s); [reflexivity|]. rewrite cb_map_opt, (map_id_ext _ _ (cut_blob_id id j)). reflexivity.
+Qed.
+
+Lemma IdsOk_do_cut s id keep : IdsOk s -> IdsOk (do_cut K s id keep).
+Proof.
+  intros H. destruct (s_open s) eqn:EO; [unfold do_cut; rewrite EO; exact H|].
+  apply IdsOk_iff in H. apply IdsOk_iff. destruct (quar_do_cut s id keep) as [Eq Ec].
+  rewrite open_do_cut, EO, next_do_cut, Eq, Ec, ids_do_cut. destruct H as (H1 & H2 & H3 & H4 & H5 & H6).
+  split; [exact H1|]. split; [discriminate|]. split; [discriminate|]. split; [exact H4|]. split; [discriminate|exact H6].
 Qed.
 
 Theorem init_IdsOk : IdsOk init_storage.
-Proof. split; [exact I|]. intros _ b []. Qed.
+Proof.
+  split; [exact I|]. split; [intros _ b []|]. split; [intros _ q []|]. split; [intros b []|]. split; reflexivity.
+Qed.
 
 Theorem step_IdsOk : forall s o, IdsOk s -> IdsOk (fst (step K cfg s o)).
 Proof.
@@ -934,17 +1207,20 @@ Proof.
     destruct (s_alive s && eval_pred pred s); [apply IdsOkS_replace_active, HS|exact HS].
   - cbn [fst]. apply IdsOkS_IdsOk, IdsOkS_request_dump, HS.
   - cbn [fst]. apply quiesce_IdsOk, H.
-  - cbn [fst]. apply IdsOkS_IdsOk. revert HS. apply IdsOkS_same; [|reflexivity].
+  - cbn [fst]. apply IdsOkS_IdsOk. revert HS. apply IdsOkS_same; [|reflexivity|reflexivity].
     rewrite ids_closed_state, ids_eq. unfold do_close. rewrite map_app, closed_blobs_cb.
     destruct (s_active s) as [a|]; [|reflexivity]. cbn [map]. rewrite blob_dump_id. reflexivity.
-  - cbn [fst]. apply IdsOkS_IdsOk. revert HS. apply IdsOkS_same; [|reflexivity].
+  - cbn [fst]. apply IdsOkS_IdsOk. revert HS. apply IdsOkS_same; [|reflexivity|reflexivity].
     rewrite ids_closed_state, ids_eq. rewrite map_app, closed_blobs_cb.
     destruct (s_active s) as [a|]; reflexivity.
   - destruct (s_open s); cbn [fst]; [exact H|].
-    apply IdsOkS_IdsOk, do_open_IdsOkS. apply increasing_closed. apply IdsOk_iff in H. apply H.
-  - cbn [fst]. revert H. apply IdsOk_same; [|reflexivity|reflexivity].
+    apply IdsOk_iff in H. destruct H as (H1 & _ & _ & H4 & _ & H6).
+    apply IdsOkS_IdsOk, do_open_IdsOkS; [apply increasing_closed, H1| |exact H6].
+    intros b Hb. apply H4. rewrite ids_eq, <- closed_blobs_cb. apply in_or_app. left. apply in_map. exact Hb.
+  - cbn [fst]. revert H. apply IdsOk_same; [|reflexivity|reflexivity|reflexivity].
     rewrite !ids_eq. cbn [upd_closed s_closed s_active]. rewrite cb_map_opt.
     rewrite map_id_ext; [reflexivity|]. intros b. destruct (b_id b =? id); reflexivity.
+  - cbn [fst]. apply IdsOk_do_cut, H.
 Qed.
 
 Theorem run_IdsOk : forall ops s, IdsOk s -> IdsOk (fst (run K cfg s ops)).
@@ -1018,14 +1294,37 @@ Qed.
 Lemma abs_closed_state files s : abs (closed_state files s) = flat_map b_recs files.
 Proof. rewrite abs_eq. cbn [closed_state s_closed s_active]. rewrite cb_map_Some, app_nil_r. reflexivity. Qed.
 
+(* the operations that change the log: the two data operations of the storage, and damage done to a blob file by a crash *)
 Definition is_data_op (o : op) : bool :=
-  match o with OWrite _ _ _ _ _ _ | ODelete _ _ _ _ _ => true | _ => false end.
+  match o with OWrite _ _ _ _ _ _ | ODelete _ _ _ _ _ | OCut _ _ => true | _ => false end.
 
-(* see the header comment for the NoActiveWhenClosed hypothesis *)
-Theorem nondata_abs : forall s o, is_data_op o = false -> IdsOk s -> NoActiveWhenClosed s ->
+Lemma good_files_nil files : good_files [] files = files.
+Proof. unfold good_files. induction files as [|x l IH]; [reflexivity|]. cbn [filter]. unfold is_bad at 1. cbn [existsb negb]. rewrite IH. reflexivity. Qed.
+
+(* the log after `open`: the records of the readable files *)
+Lemma do_open_recs files bad quar c lazy f2 : increasing (map b_id files) ->
+  flat_map b_recs (blobs_in_order (do_open K files bad quar c lazy f2)) = flat_map b_recs (good_files bad files).
+Proof.
+  intros Hinc. destruct (good_files bad files) as [|g0 gs] eqn:EG.
+  - destruct (do_open_nogood files bad quar c lazy f2 EG) as [Hb _]. rewrite Hb.
+    destruct (fresh_on_open files lazy); reflexivity.
+  - assert (Hne : good_files bad files <> []) by (rewrite EG; discriminate).
+    destruct (do_open_order files bad quar c lazy f2 Hinc Hne) as (_ & Hr & _). rewrite Hr, EG. reflexivity.
+Qed.
+
+Lemma open_abs s lazy : IdsOk s -> NoActiveWhenClosed s -> s_open s = false ->
+  abs (fst (step K cfg s (OOpen lazy))) = flat_map b_recs (good_files (s_bad s) (closed_blobs s)).
+Proof.
+  intros H HN EO. unfold step. cbn [needs_open andb]. rewrite EO. cbn [fst].
+  apply IdsOk_iff in H. destruct H as [Hinc _]. apply increasing_closed in Hinc.
+  apply do_open_recs, Hinc.
+Qed.
+
+(* everything but the data operations, crash damage and `open` *)
+Lemma nondata_abs_noopen : forall s o, is_data_op o = false -> (forall l, o <> OOpen l) ->
   abs (fst (step K cfg s o)) = abs s.
 Proof.
-  intros s o Hd H HN. unfold step. destruct (needs_open o && negb (s_open s)); [reflexivity|].
+  intros s o Hd Hn. unfold step. destruct (needs_open o && negb (s_open s)); [reflexivity|].
   destruct o; try discriminate Hd; try reflexivity.
   - pose proof (abs_close_active s) as H1. destruct (close_active s) as [s' e].
     cbn [fst] in *. rewrite abs_request_dump. exact H1.
@@ -1042,15 +1341,38 @@ Proof.
     destruct (s_active s) as [a|]; [|reflexivity]. cbn [flat_map]. rewrite blob_dump_recs, app_nil_r. reflexivity.
   - cbn [fst]. rewrite abs_closed_state, abs_eq. rewrite flat_map_app, closed_blobs_cb.
     destruct (s_active s) as [a|]; [|reflexivity]. cbn [flat_map]. rewrite app_nil_r. reflexivity.
-  - destruct (s_open s) eqn:EO; cbn [fst]; [reflexivity|].
-    rewrite (abs_eq s), (HN EO), app_nil_r, <- closed_blobs_cb.
-    apply IdsOk_iff in H. destruct H as [Hinc _]. apply increasing_closed in Hinc.
-    destruct (closed_blobs s) as [|f0 fs] eqn:EF; [reflexivity|].
-    rewrite <- EF in *. assert (Hne : closed_blobs s <> []) by (rewrite EF; discriminate).
-    destruct (do_open_order (closed_blobs s) (s_corrupted s) lazy (s_f2 s) Hinc Hne) as (_ & Hr & _).
-    exact Hr.
+  - exfalso. apply (Hn lazy). reflexivity.
   - cbn [fst]. rewrite !abs_eq. cbn [upd_closed s_closed s_active]. rewrite cb_map_opt.
     rewrite flat_map_recs_ext; [reflexivity|]. intros b. destruct (b_id b =? id); reflexivity.
+Qed.
+
+(* the log of the blob files that can be read back: what `open` makes the log *)
+Definition readable_log (s : storage) : log := flat_map b_recs (good_files (s_bad s) (blobs_in_order s)).
+
+Lemma readable_log_no_bad s : s_bad s = [] -> readable_log s = abs s.
+Proof. intros HB. unfold readable_log. rewrite HB, good_files_nil. reflexivity. Qed.
+
+(* see the header comment for the NoActiveWhenClosed hypothesis. After EVERY operation that is not a write, a delete or
+   crash damage the log is as before -- except that `open` drops the records of the blob files a crash made unreadable
+   (they are moved to the corrupted directory); while the storage is open there is no such file (IdsOk) *)
+Theorem nondata_abs_gen : forall s o, is_data_op o = false -> IdsOk s -> NoActiveWhenClosed s ->
+  abs (fst (step K cfg s o)) = match o with OOpen _ => readable_log s | _ => abs s end.
+Proof.
+  intros s o Hd H HN.
+  assert (Hno : (forall l, o <> OOpen l) -> abs (fst (step K cfg s o)) = abs s) by (apply nondata_abs_noopen, Hd).
+  destruct o; try (apply Hno; discriminate).
+  destruct (s_open s) eqn:EO.
+  - rewrite readable_log_no_bad by (apply H, EO). unfold step. cbn [needs_open andb]. rewrite EO. reflexivity.
+  - rewrite (open_abs s lazy H HN EO). unfold readable_log, blobs_in_order. rewrite (HN EO), app_nil_r. reflexivity.
+Qed.
+
+(* `s_bad s = []`: no blob file of the directory was made unreadable by a crash since the last start (always so while
+   the storage is open) *)
+Theorem nondata_abs : forall s o, is_data_op o = false -> IdsOk s -> NoActiveWhenClosed s -> s_bad s = [] ->
+  abs (fst (step K cfg s o)) = abs s.
+Proof.
+  intros s o Hd H HN HB. rewrite (nondata_abs_gen s o Hd H HN). rewrite (readable_log_no_bad s HB).
+  destruct o; reflexivity.
 Qed.
 
 (* ---------- why nondata_abs needs NoActiveWhenClosed ---------- *)
@@ -1059,7 +1381,7 @@ Definition cex_blob : blob :=
   {| b_id := 0; b_recs := [r0]; b_idx := index_of [r0]; b_ondisk := false; b_idxfile := None |}.
 Definition cex_closed : storage :=
   {| s_active := Some cex_blob; s_closed := []; s_next := 1; s_corrupted := 0; s_alive := false;
-     s_dump_req := false; s_aged := false; s_open := false; s_f2 := false |}.
+     s_dump_req := false; s_aged := false; s_open := false; s_f2 := false; s_bad := []; s_quar := [] |}.
 
 Lemma cex_blob_ok : blob_ok K cex_blob.
 Proof. split; [reflexivity|exact I]. Qed.
@@ -1071,7 +1393,8 @@ Lemma nondata_abs_needs_NoActiveWhenClosed :
   abs (fst (step K cfg cex_closed (OOpen false))) <> abs cex_closed.
 Proof.
   split; [|split; [|split]].
-  - split; [split; exact I|]. intros Ho. discriminate Ho.
+  - split; [split; exact I|]. split; [intros Ho; discriminate Ho|]. split; [intros Ho; discriminate Ho|].
+    split; [intros b _ []|]. split; reflexivity.
   - split; [intros b []|]. intros b E. injection E as <-. apply cex_blob_ok.
   - reflexivity.
   - assert (E1 : abs (fst (step K cfg cex_closed (OOpen false))) = []) by reflexivity.
@@ -1142,12 +1465,6 @@ Proof.
     destruct (0 <? nc); cbn [fst]; [rewrite open_request_dump|]; reflexivity.
 Qed.
 
-Lemma open_do_open files c lazy f2 : s_open (do_open K files c lazy f2) = true.
-Proof.
-  unfold do_open. destruct files as [|f0 fs]; [reflexivity|]. destruct lazy; [reflexivity|].
-  destruct (rev (sort_by_id (map (blob_from_file K) (f0 :: fs)))); reflexivity.
-Qed.
-
 Theorem init_NoActiveWhenClosed : NoActiveWhenClosed init_storage.
 Proof. intros _. reflexivity. Qed.
 
@@ -1158,6 +1475,7 @@ Proof.
   destruct o; try exact H.
   all: try (cbn [needs_open andb] in EN; apply negb_false_iff in EN).
   all: try (intros _; reflexivity).
+  all: try (cbn [fst]; intros Ho; rewrite open_do_cut in Ho; rewrite active_do_cut; exact (H Ho)).
   all: unfold NoActiveWhenClosed; intros Ho; exfalso.
   - rewrite open_do_write in Ho. congruence.
   - rewrite open_do_delete in Ho. congruence.
@@ -1191,10 +1509,163 @@ Proof.
   destruct (run K cfg (quiesce K s') ops) as [s'' xs]. exact IH.
 Qed.
 
-Theorem step_q_nondata_abs : forall s o,
-  is_data_op o = false -> IdsOk s -> NoActiveWhenClosed s -> abs (fst (step_q K cfg s o)) = abs s.
+(* ---------- the quarantine fields are touched by `open` and by crash damage only ---------- *)
+Lemma qf_request_dump s : qf (request_dump s) = qf s.
+Proof. unfold request_dump. destruct (s_alive s); reflexivity. Qed.
+
+Lemma qf_ensure_active s : qf (ensure_active s) = qf s.
+Proof. unfold ensure_active. destruct (s_active s); reflexivity. Qed.
+
+Lemma qf_close_active s : qf (fst (close_active s)) = qf s.
+Proof. unfold close_active. destruct (s_active s); reflexivity. Qed.
+
+Lemma qf_create_active s : qf (fst (create_active s)) = qf s.
+Proof. unfold create_active. destruct (s_active s); [reflexivity|apply qf_ensure_active]. Qed.
+
+Lemma qf_restore_active s : qf (fst (restore_active K s)) = qf s.
 Proof.
-  intros s o Hd H HN. unfold step_q. pose proof (nondata_abs s o Hd H HN) as H1.
+  unfold restore_active. destruct (s_active s); [reflexivity|].
+  destruct (pop_last (s_closed s)) as [[b c]|]; reflexivity.
+Qed.
+
+Lemma qf_worker s f : (forall s, qf (fst (f s)) = qf s) -> qf (worker s f) = qf s.
+Proof.
+  intros Hf. unfold worker. destruct (s_alive s); [|reflexivity].
+  specialize (Hf s). destruct (f s) as [s' [e|]]; exact Hf.
+Qed.
+
+Lemma qf_maybe_rotate s : qf (maybe_rotate K cfg s) = qf s.
+Proof.
+  unfold maybe_rotate. destruct (s_active s) as [a|]; [|reflexivity].
+  destruct (blob_full K cfg a && s_aged s && s_alive s); [|reflexivity].
+  rewrite qf_request_dump. reflexivity.
+Qed.
+
+Lemma qf_quiesce s : qf (quiesce K s) = qf s.
+Proof. unfold quiesce. destruct (s_alive s && s_dump_req s); reflexivity. Qed.
+
+Lemma qf_do_write s k ts meta msize dlen dseed :
+  qf (fst (do_write K cfg s k ts meta msize dlen dseed)) = qf s.
+Proof.
+  unfold do_write. rewrite <- (qf_ensure_active s).
+  set (s1 := ensure_active s). clearbody s1.
+  destruct (negb (c_dup cfg) && is_found (get_latest_entry s1 k meta)); cbn [fst]; [reflexivity|].
+  destruct (s_active s1) as [a|]; cbn [fst]; [|reflexivity].
+  destruct (blob_append a (mk_rec k ts false meta msize dlen dseed)) as [b' ok].
+  destruct ok; cbn [fst]; [rewrite qf_maybe_rotate|]; reflexivity.
+Qed.
+
+Lemma qf_do_delete s k ts meta msize oip :
+  qf (fst (do_delete K s k ts meta msize oip)) = qf s.
+Proof.
+  unfold do_delete.
+  assert (H1 : qf (if oip then s else ensure_active s) = qf s).
+  { destruct oip; [reflexivity|apply qf_ensure_active]. }
+  rewrite <- H1. set (s1 := if oip then s else ensure_active s). clearbody s1.
+  set (mk := mk_rec k ts true meta msize 0 0).
+  destruct (s_active s1) as [a|].
+  - destruct (blob_delete K a mk oip) as [[b' d] ok].
+    destruct (negb ok); cbn [fst]; [reflexivity|].
+    destruct (delete_in_closed K (s_closed (upd_active s1 (Some b'))) mk) as [[c' nc] f].
+    destruct (0 <? nc); cbn [fst]; [rewrite qf_request_dump|]; reflexivity.
+  - cbn [negb]. destruct (delete_in_closed K (s_closed s1) mk) as [[c' nc] f].
+    destruct (0 <? nc); cbn [fst]; [rewrite qf_request_dump|]; reflexivity.
+Qed.
+
+Definition is_cut (o : op) : bool := match o with OCut _ _ => true | _ => false end.
+Definition touches_quar (o : op) : bool := match o with OOpen _ | OCut _ _ => true | _ => false end.
+
+Theorem qf_step : forall s o, touches_quar o = false -> qf (fst (step K cfg s o)) = qf s.
+Proof.
+  intros s o Ht. unfold step. destruct (needs_open o && negb (s_open s)); [reflexivity|].
+  destruct o; try discriminate Ht; try reflexivity.
+  - apply qf_do_write.
+  - apply qf_do_delete.
+  - pose proof (qf_close_active s) as H1. destruct (close_active s) as [s' e].
+    cbn [fst] in *. rewrite qf_request_dump. exact H1.
+  - pose proof (qf_create_active s) as H1. destruct (create_active s) as [s' e]. exact H1.
+  - pose proof (qf_restore_active s) as H1. destruct (restore_active K s) as [s' e]. exact H1.
+  - cbn [fst]. rewrite qf_request_dump. apply qf_worker, qf_close_active.
+  - cbn [fst]. apply qf_worker, qf_create_active.
+  - cbn [fst]. apply qf_worker, qf_restore_active.
+  - cbn [fst]. rewrite qf_request_dump. destruct (s_alive s && eval_pred pred s); reflexivity.
+  - cbn [fst]. apply qf_request_dump.
+  - cbn [fst]. apply qf_quiesce.
+Qed.
+
+(* without crash damage no file becomes unreadable *)
+Theorem bad_step : forall s o, is_cut o = false -> s_bad s = [] -> s_bad (fst (step K cfg s o)) = [].
+Proof.
+  intros s o Hc HB. destruct (touches_quar o) eqn:Ht.
+  - destruct o; try discriminate Ht; try discriminate Hc.
+    unfold step. cbn [needs_open andb]. destruct (s_open s); cbn [fst]; [exact HB|apply do_open_quar].
+  - pose proof (qf_step s o Ht) as E. apply qf_inv in E. destruct E as (_ & E & _). rewrite E. exact HB.
+Qed.
+
+Theorem bad_step_q : forall s o, is_cut o = false -> s_bad s = [] -> s_bad (fst (step_q K cfg s o)) = [].
+Proof.
+  intros s o Hc HB. unfold step_q. pose proof (bad_step s o Hc HB) as H1.
+  destruct (step K cfg s o) as [s' r]. cbn [fst] in *.
+  pose proof (qf_quiesce s') as E. apply qf_inv in E. destruct E as (_ & E & _). rewrite E. exact H1.
+Qed.
+
+(* ---------- unreadable files appear only through a crash and disappear at the next open ---------- *)
+Lemma step_stays_open s o : s_open s = true -> o <> OClose -> o <> ODrop -> s_open (fst (step K cfg s o)) = true.
+Proof.
+  intros Ho H1 H2. unfold step. rewrite Ho, andb_false_r.
+  destruct o; cbn [fst]; try exact Ho; try contradiction.
+  - rewrite open_do_write. exact Ho.
+  - rewrite open_do_delete. exact Ho.
+  - pose proof (open_close_active s) as E. destruct (close_active s) as [s' e]. cbn [fst] in *.
+    rewrite open_request_dump, E. exact Ho.
+  - pose proof (open_create_active s) as E. destruct (create_active s) as [s' e]. cbn [fst] in *. rewrite E. exact Ho.
+  - pose proof (open_restore_active s) as E. destruct (restore_active K s) as [s' e]. cbn [fst] in *. rewrite E. exact Ho.
+  - rewrite open_request_dump, open_worker by apply open_close_active. exact Ho.
+  - rewrite open_worker by apply open_create_active. exact Ho.
+  - rewrite open_worker by apply open_restore_active. exact Ho.
+  - rewrite open_request_dump. destruct (s_alive s && eval_pred pred s); [cbn [replace_active s_open]|]; exact Ho.
+  - rewrite open_request_dump. exact Ho.
+  - rewrite open_quiesce. exact Ho.
+  - rewrite open_do_cut. exact Ho.
+Qed.
+
+Lemma bad_quiesce s : s_bad (quiesce K s) = s_bad s.
+Proof. unfold quiesce. destruct (s_alive s && s_dump_req s); reflexivity. Qed.
+
+Lemma quar_quiesce s : s_quar (quiesce K s) = s_quar s /\ s_corrupted (quiesce K s) = s_corrupted s.
+Proof. unfold quiesce. destruct (s_alive s && s_dump_req s); split; reflexivity. Qed.
+
+Theorem bad_nil_step : forall s o, IdsOk s -> (forall id, o <> OCut id None) -> s_bad s = [] ->
+  s_bad (fst (step K cfg s o)) = [].
+Proof.
+  intros s o H Hc HB. pose proof (step_IdsOk s o H) as HI. apply IdsOk_iff in HI.
+  destruct HI as (_ & _ & _ & _ & H5 & _). destruct (s_open s) eqn:EO.
+  - destruct o; try (apply H5, step_stays_open; [exact EO|discriminate|discriminate]);
+      unfold step; rewrite EO; cbn [needs_open andb negb fst closed_state s_bad]; exact HB.
+  - unfold step. rewrite EO. destruct o; cbn [needs_open andb negb fst]; try exact HB.
+    + apply do_open_quar.
+    + destruct keep as [j|]; [|exfalso; exact (Hc id eq_refl)]. unfold do_cut. rewrite EO. exact HB.
+Qed.
+
+Theorem bad_nil_step_q : forall s o, IdsOk s -> (forall id, o <> OCut id None) -> s_bad s = [] ->
+  s_bad (fst (step_q K cfg s o)) = [].
+Proof.
+  intros s o H Hc HB. unfold step_q. pose proof (bad_nil_step s o H Hc HB) as H1.
+  destruct (step K cfg s o) as [s' r]. cbn [fst] in *. rewrite bad_quiesce. exact H1.
+Qed.
+
+Theorem step_q_nondata_abs_gen : forall s o,
+  is_data_op o = false -> IdsOk s -> NoActiveWhenClosed s ->
+  abs (fst (step_q K cfg s o)) = match o with OOpen _ => readable_log s | _ => abs s end.
+Proof.
+  intros s o Hd H HN. unfold step_q. pose proof (nondata_abs_gen s o Hd H HN) as H1.
+  destruct (step K cfg s o) as [s' r]. cbn [fst] in *. rewrite quiesce_abs. exact H1.
+Qed.
+
+Theorem step_q_nondata_abs : forall s o,
+  is_data_op o = false -> IdsOk s -> NoActiveWhenClosed s -> s_bad s = [] -> abs (fst (step_q K cfg s o)) = abs s.
+Proof.
+  intros s o Hd H HN HB. unfold step_q. pose proof (nondata_abs s o Hd H HN HB) as H1.
   destruct (step K cfg s o) as [s' r]. cbn [fst] in *. rewrite quiesce_abs. exact H1.
 Qed.
 
@@ -1319,12 +1790,12 @@ Proof.
   rewrite Ha. apply blob_load_index_mem.
 Qed.
 
-Lemma aim_do_open files c lazy f2 : ActiveInMemory (do_open K files c lazy f2).
+Lemma aim_do_open files bad quar c lazy f2 : ActiveInMemory (do_open K files bad quar c lazy f2).
 Proof.
-  unfold do_open. destruct files as [|f0 fs]; [apply (aim_some _ (new_blob 0)); reflexivity|].
+  unfold do_open. destruct files as [|f0 fs]; [apply (aim_some _ (new_blob (next_above quar))); reflexivity|].
   destruct lazy; [apply aim_none; reflexivity|].
-  destruct (rev (sort_by_id (map (blob_from_file K) (f0 :: fs)))) as [|last r];
-    [apply aim_none; reflexivity|].
+  destruct (rev (sort_by_id (map (blob_from_file K) (filter (fun b => negb (is_bad bad b)) (f0 :: fs))))) as [|last r];
+    [apply (aim_some _ (new_blob (next_above (map b_id (f0 :: fs) ++ quar)))); reflexivity|].
   apply (aim_some _ (blob_load_index K last)); [reflexivity|apply blob_load_index_mem].
 Qed.
 
@@ -1425,12 +1896,7 @@ Proof.
   - cbn [fst]. apply aim_none. reflexivity.
   - cbn [fst]. apply aim_none. reflexivity.
   - destruct (s_open s); cbn [fst]; [exact H|apply aim_do_open].
-Qed.
-
-Lemma f2_do_open files c lazy f2 : s_f2 (do_open K files c lazy f2) = f2.
-Proof.
-  unfold do_open. destruct files as [|f0 fs]; [reflexivity|]. destruct lazy; [reflexivity|].
-  destruct (rev (sort_by_id (map (blob_from_file K) (f0 :: fs)))); reflexivity.
+  - cbn [fst]. revert H. apply aim_ext, active_do_cut.
 Qed.
 
 (* no operation raises the ghost flag *)
@@ -1451,6 +1917,7 @@ Proof.
   - cbn [fst]. apply f2_request_dump.
   - cbn [fst]. apply f2_quiesce.
   - destruct (s_open s); cbn [fst]; [reflexivity|apply f2_do_open].
+  - cbn [fst]. apply f2_do_cut.
 Qed.
 
 (* ... and no write or delete is refused with ErrorKind::Index *)
@@ -1500,6 +1967,10 @@ Print Assumptions step_IdsOk.
 Print Assumptions quiesce_IdsOk.
 Print Assumptions run_IdsOk.
 Print Assumptions nondata_abs.
+Print Assumptions nondata_abs_gen.
+Print Assumptions step_q_nondata_abs_gen.
+Print Assumptions bad_nil_step.
+Print Assumptions qf_step.
 Print Assumptions quiesce_abs.
 Print Assumptions step_q_nondata_abs.
 Print Assumptions run_NoActiveWhenClosed.
